@@ -44,6 +44,11 @@ extern size_t gz_hint;       /* ghost: the value the relaxed load of a hint retu
 /* the part of the shape that a function reading only the type table needs (tr then points into the other table) */
 #define ZSHAPE_TY(z) (__CPROVER_is_fresh(z, sizeof(TimeZoneInfo)) && 1 <= NTY(z) && NTY(z) <= 256 && \
   __CPROVER_is_fresh((z)->transition_types_.data, NTY(z) * sizeof(TransitionType)) && VSTR_WF((z)->abbreviations_))
+#define ZSHAPE_TY256(z) (__CPROVER_is_fresh(z, sizeof(TimeZoneInfo)) && 1 <= NTY(z) && NTY(z) <= 256 && \
+  __CPROVER_is_fresh((z)->transition_types_.data, 256 * sizeof(TransitionType)))
+#define ZSHAPE256(z) (__CPROVER_is_fresh(z, sizeof(TimeZoneInfo)) && 1 <= NTR(z) && NTR(z) <= ZMAXTR && \
+  __CPROVER_is_fresh((z)->transitions_.data, NTR(z) * sizeof(Transition)) && 1 <= NTY(z) && NTY(z) <= 256 && \
+  __CPROVER_is_fresh((z)->transition_types_.data, 256 * sizeof(TransitionType)) && DEFTY(z) < NTY(z))
 /* a transition type is sane (Load: offsets within a day, abbreviation index inside the string) */
 #define TYOK(z, k) ((k) < NTY(z) && -86400 < TY(z, k).utc_offset && TY(z, k).utc_offset < 86400 && TY(z, k).abbr_index <= (z)->abbreviations_.size)
 /* type in force just before transition i */
@@ -79,6 +84,20 @@ static inline const Transition* valg_upper_bound_Transition_ByUnixTime(const Tra
   const size_t n = (size_t)(last - first);
   if (gz_i + 1 < n && first[gz_i].unix_time <= value->unix_time && value->unix_time < first[gz_i + 1].unix_time)
     return first + (gz_i + 1);      /* the end of the (unique, by sortedness) bracket */
+  if (n > 0 && value->unix_time < first[0].unix_time) return first;           /* every row is later */
+  if (n > 0 && value->unix_time >= first[n - 1].unix_time) return last;       /* no row is later */
+  const size_t k = nondet_size_t();
+  __CPROVER_assume(k <= n);
+  return first + k;
+}
+/* std::lower_bound: the first row not earlier than the key */
+static inline const Transition* valg_lower_bound_Transition_ByUnixTime(const Transition* first, const Transition* last, const Transition* value)
+{
+  const size_t n = (size_t)(last - first);
+  if (gz_i + 1 < n && first[gz_i].unix_time < value->unix_time && value->unix_time <= first[gz_i + 1].unix_time)
+    return first + (gz_i + 1);
+  if (n > 0 && value->unix_time <= first[0].unix_time) return first;
+  if (n > 0 && value->unix_time > first[n - 1].unix_time) return last;
   const size_t k = nondet_size_t();
   __CPROVER_assume(k <= n);
   return first + k;
@@ -106,7 +125,9 @@ __CPROVER_assigns();
  * (abbreviations are identified by their index into the zone's abbreviation string) */
 #define EQUIV_TY(z, a, b) ((a) == (b) || (TY(z, a).utc_offset == TY(z, b).utc_offset && TY(z, a).is_dst == TY(z, b).is_dst && TY(z, a).abbr_index == TY(z, b).abbr_index))
 bool EquivTransitions(const TimeZoneInfo* self, uint_fast8_t tt1_index, uint_fast8_t tt2_index)
-__CPROVER_requires(ZSHAPE_TY(self) && tt1_index < NTY(self) && tt2_index < NTY(self))
+/* type indices are bytes; Load validates every row's index against the type count.  That table-wide fact is modelled by giving the symbolic type
+ * table 256 addressable entries (ZSHAPE_TY256): an index is then always inside the allocation, and nothing is concluded from entries >= NTY. */
+__CPROVER_requires(ZSHAPE_TY256(self))
 __CPROVER_ensures(RV == (EQUIV_TY(self, tt1_index, tt2_index) ? 1 : 0))
 __CPROVER_assigns();
 
@@ -303,5 +324,53 @@ __CPROVER_ensures((Z)RV.pre == TL_FIELD(gz_mt.pre, c4_shift))
 __CPROVER_ensures((Z)RV.trans == TL_FIELD(gz_mt.trans, c4_shift))
 __CPROVER_ensures((Z)RV.post == TL_FIELD(gz_mt.post, c4_shift))
 __CPROVER_assigns(gz_mt);
+
+
+/* ---- C11 (kernel): next_transition / prev_transition -------------------------------------------------------------------------------
+ * NS = 1 when row 0 is the "big bang" sentinel (unix_time <= -2^59), which is never reported.  A row k "changes nothing" when the type in
+ * force before it is equivalent to its own (EQ_AT); like the code, the type in force before the first reportable row is the default type.
+ * gz_i names the bracket of tp among the reportable rows (relative to row NS), gz_k is an arbitrary row, gz_r the reported row
+ * (a prophecy variable, resolved by a ghost assume at the point where the code has chosen the row). */
+extern size_t gz_r;
+#define NS(z) ((size_t)(TR(z, 0).unix_time <= -((int_fast64_t)1 << 59) ? 1 : 0))
+#define PREVTY_N(z, k) ((k) == NS(z) ? (size_t)DEFTY(z) : (size_t)TR(z, (k) - 1).type_index)
+#define EQ_AT(z, k) EQUIV_TY(z, PREVTY_N(z, k), (size_t)TR(z, k).type_index)
+#define NT_BRK(z, t) (NS(z) + gz_i + 1 < NTR(z) && TR(z, NS(z) + gz_i).unix_time <= (t) && (t) < TR(z, NS(z) + gz_i + 1).unix_time)
+#define NT_EMPTY(z) (NTR(z) == NS(z))
+#define NT_KNOWN(z, t) (NT_EMPTY(z) || (t) < TR(z, NS(z)).unix_time || (t) >= TR(z, NTR(z) - 1).unix_time || NT_BRK(z, t))
+/* first row strictly after t */
+#define NT_K(z, t) (NT_EMPTY(z) ? NTR(z) : ((t) < TR(z, NS(z)).unix_time ? NS(z) : ((t) >= TR(z, NTR(z) - 1).unix_time ? NTR(z) : NS(z) + gz_i + 1)))
+#define TRANS_IS(z, trans, r) (FIELDS_EQ((trans)->to, TR(z, r).civil_sec) && OVALID((trans)->from) && OSEC((trans)->from) == OSEC(TR(z, r).prev_civil_sec) + 1)
+
+bool NextTransition(const TimeZoneInfo* self, time_point_s tp, civil_transition* trans)
+__CPROVER_requires(ZSHAPE256(self) && __CPROVER_is_fresh(trans, sizeof(civil_transition)) && !gz_extended)
+__CPROVER_requires(gz_r < NTR(self) ? (WFI(self, gz_r) && MARGIN(self, gz_r)) : 1)
+/* instance of the order by unix_time: the reported row is not earlier than the first row after tp */
+__CPROVER_requires((NT_K(self, tp) < NTR(self) && NT_K(self, tp) <= gz_r && gz_r < NTR(self)) ? TR(self, NT_K(self, tp)).unix_time <= TR(self, gz_r).unix_time : 1)
+/* reported: a row strictly after tp, whose change is real, with from/to read off that row */
+__CPROVER_ensures((NT_KNOWN(self, tp) && RV) ? (NT_K(self, tp) <= gz_r && gz_r < NTR(self) && !EQ_AT(self, gz_r)) : 1)
+__CPROVER_ensures((NT_KNOWN(self, tp) && RV) ? TRANS_IS(self, trans, gz_r) : 1)
+__CPROVER_ensures((NT_KNOWN(self, tp) && RV) ? TR(self, gz_r).unix_time > tp : 1)
+/* earliest: every row after tp and before the reported one changes nothing; nothing reported: every row after tp changes nothing */
+__CPROVER_ensures((NT_KNOWN(self, tp) && RV && NT_K(self, tp) <= gz_k && gz_k < gz_r) ? EQ_AT(self, gz_k) : 1)
+__CPROVER_ensures((NT_KNOWN(self, tp) && !RV && NT_K(self, tp) <= gz_k && gz_k < NTR(self)) ? EQ_AT(self, gz_k) : 1)
+__CPROVER_assigns(*trans);
+
+
+/* prev_transition: PT_L = first row at or after tp; the reported row is the last row before it whose change is real */
+#define PT_BRK(z, t) (NS(z) + gz_i + 1 < NTR(z) && TR(z, NS(z) + gz_i).unix_time < (t) && (t) <= TR(z, NS(z) + gz_i + 1).unix_time)
+#define PT_KNOWN(z, t) (NT_EMPTY(z) || (t) <= TR(z, NS(z)).unix_time || (t) > TR(z, NTR(z) - 1).unix_time || PT_BRK(z, t))
+#define PT_L(z, t) (NT_EMPTY(z) ? NS(z) : ((t) <= TR(z, NS(z)).unix_time ? NS(z) : ((t) > TR(z, NTR(z) - 1).unix_time ? NTR(z) : NS(z) + gz_i + 1)))
+bool PrevTransition(const TimeZoneInfo* self, time_point_s tp, civil_transition* trans)
+__CPROVER_requires(ZSHAPE256(self) && __CPROVER_is_fresh(trans, sizeof(civil_transition)) && !gz_extended)
+__CPROVER_requires(gz_r < NTR(self) ? (WFI(self, gz_r) && MARGIN(self, gz_r)) : 1)
+/* instance of the order by unix_time: the reported row is not later than the last row before tp */
+__CPROVER_requires((PT_L(self, tp) >= 1 && gz_r < PT_L(self, tp)) ? TR(self, gz_r).unix_time <= TR(self, PT_L(self, tp) - 1).unix_time : 1)
+__CPROVER_ensures((PT_KNOWN(self, tp) && RV) ? (NS(self) <= gz_r && gz_r < PT_L(self, tp) && !EQ_AT(self, gz_r)) : 1)
+__CPROVER_ensures((PT_KNOWN(self, tp) && RV) ? TRANS_IS(self, trans, gz_r) : 1)
+__CPROVER_ensures((PT_KNOWN(self, tp) && RV) ? TR(self, gz_r).unix_time < tp : 1)
+__CPROVER_ensures((PT_KNOWN(self, tp) && RV && gz_r < gz_k && gz_k < PT_L(self, tp)) ? EQ_AT(self, gz_k) : 1)
+__CPROVER_ensures((PT_KNOWN(self, tp) && !RV && NS(self) <= gz_k && gz_k < PT_L(self, tp)) ? EQ_AT(self, gz_k) : 1)
+__CPROVER_assigns(*trans);
 
 #pragma CPROVER check pop
